@@ -69,6 +69,15 @@ C15OK(rec) ==
        /\ ClearContract(Members(ToSt(rec.pre)), rec.ev)
        /\ ToSt(rec.post) = Empty
 
+ModelOps(rec) == LET M == Members(ToSt(rec.pre)) IN
+    {[op |-> "ins", n |-> n, h |-> h] : n \in Nodes \ M, h \in BOOLEAN}
+    \cup {[op |-> "era", k |-> Key[n], alias |-> FALSE] : n \in Nodes}
+    \cup {[op |-> "clear", poison |-> TRUE]}
+\* In a closure the records of one state are contiguous (field g on the first of them = how many).  Every transition
+\* the L0 machine can take from that state (ModelOps) must be among the operations the driver applied to the real
+\* code there (the driver applies read-only probes on top).  Recs[1] is the trace header (the scope).
+Applied(k, o) == \E j \in k..(k + Recs[k].g - 1) : Recs[j].op = o.op /\ \A f \in DOMAIN o : Recs[j][f] = o[f]
+OpsOK(k) == LET rec == Recs[k] IN rec.pre.bad \/ \A o \in ModelOps(rec) : Applied(k, o)
 VARIABLE i
 Judge(rec) ==
     /\ (IF Level # 2 \/ C01OK(rec) THEN TRUE ELSE PrintT(<<"L2FAIL", "C01", rec.id>>))
@@ -77,6 +86,7 @@ Judge(rec) ==
     /\ (IF Level # 1 \/ StepOK(rec) THEN TRUE ELSE PrintT(<<"L1DRIFT", "tree", rec.id>>))
 TInit == i = 1
 TNext == i < Len(Recs) /\ i' = i + 1 /\ Judge(Recs[i + 1])
+         /\ (IF Level # 1 \/ Recs[i + 1].g = 0 \/ OpsOK(i + 1) THEN TRUE ELSE PrintT(<<"OPSDIFF", "tree", Recs[i + 1].id>>))
 TSpec == TInit /\ [][TNext]_i
 Done == i = Len(Recs) => PrintT(<<"TRACE-END", i>>)
 =============================================================================
